@@ -230,7 +230,7 @@ SAFE_BUILTINS = {
     n: getattr(builtins, n)
     for n in (
         "len int bool bytes str repr any all frozenset set tuple list dict sorted min max zip enumerate range abs sum "
-        "reversed ord chr hex divmod round bytearray float"
+        "reversed ord chr hex divmod round bytearray float object format ascii bin oct pow slice id hash"
     ).split()
 }
 NATIVE_TYPES = (str, bytes, bytearray, int, float, bool, tuple, list, dict, set, frozenset, type(None), range)
